@@ -166,11 +166,11 @@ func TestC08Race(t *testing.T) {
 		iters = 300
 	}
 	var n int64
+	var all []schedx.Conc
 	for _, c := range annConcs(t, env.Deep()) {
-		cc := c.conc(t, false)
-		allowed, _ := cc.Serial()
-		n += cc.FreeRunConc(rep, env, allowed, iters)
+		all = append(all, c.conc(t, false))
 	}
+	n = schedx.FreeRunAll(rep, env, all, true, iters)
 	rep.Add(n, 0, 0, 0)
 	rep.OutcomeN("free-running race-detector pass [iterations]", n)
 }
